@@ -533,4 +533,20 @@ func checkNet(p *core.Prog, res *core.Result, net *procNet, rule string, outputs
 			res.Bad(rule, fkey+"|"+k+"|consumers", p.Pos(net.FI.Decl.Pos()), fmt.Sprintf("%s: channel %s is consumed by %d processes: FIFO order per channel is lost", fkey, k, n))
 		}
 	}
+	// internal channels are read to exhaustion too: a consumer that leaves its loop early
+	// strands the producer on its next send
+	isInput := map[string]bool{}
+	for _, k := range inputs {
+		isInput[k] = true
+	}
+	for _, k := range ks {
+		if isInput[k] {
+			continue
+		}
+		for _, pr := range net.Procs {
+			if ep, ok := pr.Early[k]; ok {
+				res.Bad(rule, fkey+"|drain "+k, p.Pos(ep), fmt.Sprintf("%s: the loop over the internal channel %s can be left at %s before the channel is exhausted: the process feeding it blocks on its next send once the buffer is full, and the step never finishes", fkey, k, p.Pos(ep)))
+			}
+		}
+	}
 }
